@@ -329,11 +329,13 @@ def decide(pid, tier, seed):
     witness = None
     explore_cov = {}
     weak_only = False
-    if any_fail or mine:
+    if any_fail or mine or tier == "thorough":
+        # (thorough tier: the bounded exploration also runs when every obligation is discharged, as a check of what the
+        # contracts take on trust: derive semantics, std specs, code outside the verified text)
         ex = P.explore(seed=seed or 1, budget_ms=12000 if tier == "quick" else 60000)
         explore_cov = {"witness_search": {"what": "bounded exploration of the real crate through its public API (tools/replay): every sequence of up to 3 "
                                                   "structural operations on 2-4 nodes, generation-counter scenarios, random walks; one executable oracle "
-                                                  "per property; run only because the verifier failed an obligation; labelled bounded, never counted as proof",
+                                                  "per property; run because the verifier failed an obligation (or unconditionally in the thorough tier); labelled bounded, never counted as proof",
                                           "runs": ex["runs"], "wall_s": ex.get("wall_s"),
                                           "witnesses_found_for": sorted(set(p for vv in ex["violations"] for p in vv["props"]))}}
         for vv in ex["violations"]:
@@ -354,7 +356,9 @@ def decide(pid, tier, seed):
     if witness:
         # a concrete failing input, replayed against the real code
         pth = write_witness_replay(pid, witness, [x["obligation"] for x in any_fail])
-        report = [({"obligation": (specific or violations or any_fail)[0]["obligation"]}, pth, True)]
+        first = (specific or violations or any_fail or [{"obligation": "every obligation is discharged: the failing input concerns what the contracts take on trust "
+                                                                       "(trusted base, code outside the verified text)"}])[0]
+        report = [({"obligation": first["obligation"]}, pth, True)]
     elif specific:
         report = [(x, write_replay(pid, n, x), False) for n, x in enumerate(specific)]
     elif violations or any(pid in pr for pr in lost.values()):
